@@ -12,12 +12,14 @@
 
   Full statements are kept as `def …_full : Prop`; what is proved is `…_partial` for the fragment `frag`:
   numbers, generic tuples, character/byte/item/entry tuples, strings and byte arrays (offsets, holes),
-  arrays (offsets, holes), booleans and generic sets of all these, nested arbitrarily — except that an
-  item or entry tuple may not be the *direct* child of a tuple, array or item/entry tuple (their hash
-  threads the seed).  Dictionaries, relations and union sets are covered by the correspondence run only.
+  arrays (offsets, holes), dictionaries (keys with one or several values), booleans and generic sets of all
+  these, nested arbitrarily — except that an item or entry tuple may not be the *direct* child of a tuple,
+  array, dictionary or item/entry tuple (their hash threads the seed).  Relations and union sets are covered
+  by the correspondence run only.
 -/
 import Arrai.C02.Lemmas
 import Arrai.C02.Ctors
+import Arrai.C02.CtorsGen
 
 namespace Arrai.C02.Theorems
 open Arrai Arrai.C02 Arrai.C02.Rep Arrai.C02.Impl
@@ -136,6 +138,10 @@ theorem wf_unique_partial (a b : Rep) (ha : wf a = true) (hb : wf b = true)
     simp only [wf, Bool.and_eq_true, beq_iff_eq] at ha hb
     refine ⟨e1, ?_, e2⟩
     rw [ha.2, hb.2, ← optCount_denOpts vs, ← optCount_denOpts vs', e2]
+  case dict.dict m m' =>
+    simp only [den, V.mkSet, V.set.injEq] at h
+    simp only [wf, Bool.and_eq_true, decide_eq_true_eq] at ha hb
+    exact ⟨((dict_den_iff m m' ha.1.2 hb.1.2 ha.2 hb.2).1 h).1, (FinSet.mk_eq_iff _ _).1 h⟩
   case generic.generic xs ys =>
     simp only [den, V.mkSet, V.set.injEq] at h
     have hm := (FinSet.mk_eq_iff _ _).1 h
@@ -174,34 +180,65 @@ theorem no_collapse_partial (x y : Rep) (hx : wf x = true) (hy : wf y = true)
     simp [newDict, dictGet, he]
 
 /-! ### Part 5 — the modelled constructors return canonical forms of the intended denotation
-(bounded-exhaustive: every input up to the stated size over the stated alphabet, evaluated by the kernel) -/
+(general: every input; `NewSet`/`SetBuilder` bounded-exhaustive) -/
 
-def constructors_wf_full : Prop :=
-  ∀ n, strWithoutOk true n = true ∧ arrWithoutOk true n = true ∧ newOffsetArrayOk n = true ∧
-    newOffsetStringOk n = true ∧ newTupleOk n = true ∧ mergeOk n = true ∧ setBuilderOk n = true
+/-- `NewOffsetString(s, off)` for a rune list without holes at its ends (what its callers pass) -/
+theorem new_offset_string_wf (s : List Int) (off : Int)
+    (hends : s = [] ∨ (headNonneg s = true ∧ lastNonneg s = true)) (hr : runesOk s = true) :
+    wf (newOffsetString s off) = true ∧ den (newOffsetString s off) = .set (strMembers off s) :=
+  new_offset_string_wf_den s off hends hr
 
-set_option maxRecDepth 1000000 in
-/-- `String.Without` (repaired): strings of length ≤ 3 over {hole, a, b}, two offsets, every index, both letters -/
-theorem string_without_wf_small : strWithoutOk true 3 = true := by decide
+/-- `NewOffsetArray(off, vs)` trims holes at both ends and counts: canonical, denotes the present items -/
+theorem new_offset_array_wf (off : Int) (vs : List (Option Rep)) (hw : wfOpts vs = true) :
+    wf (newOffsetArray off vs) = true ∧
+    den (newOffsetArray off vs) = V.mkSet (arrMembers off (denOpts vs)) := by
+  obtain ⟨h1, h2⟩ := new_offset_array_wf_den off vs hw
+  refine ⟨h1, ?_⟩
+  rw [h2, arrMembers_eq, V.mkSet, FinSet.mk_of_sorted _ (seqM_sorted _ _ _)]
 
-set_option maxRecDepth 1000000 in
-/-- `Array.Without` (repaired): arrays of length ≤ 3 over {hole, 1, {}} -/
-theorem array_without_wf_small : arrWithoutOk true 3 = true := by decide
+/-- `String.Without` (repaired), every string, index and character: canonical result, exactly that member removed -/
+theorem string_without_wf (s : List Int) (off holes ix ch : Int)
+    (hw : wf (.str s off holes) = true) (hc : inRune ch = true) :
+    wf (strWithout s off holes ix ch) = true ∧
+    den (strWithout s off holes ix ch) = specWithout (strMembers off s) (vpair "@char" (.num ix) (.num ch)) :=
+  string_without_wf_den s off holes ix ch hw hc
 
-set_option maxRecDepth 1000000 in
-/-- `NewOffsetArray` trims and counts -/
-theorem new_offset_array_wf_small : newOffsetArrayOk 3 = true := by decide
+/-- `Array.Without` (repaired), every array, index and item for which `Equal` with the stored items decides equality
+of denotations -/
+theorem array_without_wf (vs : List (Option Rep)) (off c ix : Int) (item : Rep)
+    (hw : wf (.array vs off c) = true)
+    (H : ∀ v, some v ∈ vs → (equal v item = true ↔ den v = den item)) :
+    wf (arrWithout vs off c ix item) = true ∧
+    den (arrWithout vs off c ix item) =
+      specWithout (arrMembers off (denOpts vs)) (vpair "@item" (.num ix) (den item)) :=
+  array_without_wf_den vs off c ix item hw H
 
-set_option maxRecDepth 1000000 in
-theorem new_offset_string_wf_small : newOffsetStringOk 3 = true := by decide
+/-- … in particular for arrays and items of the proved fragment -/
+theorem array_without_wf_frag (vs : List (Option Rep)) (off c ix : Int) (item : Rep)
+    (hw : wf (.array vs off c) = true) (hf : frag (.array vs off c) = true)
+    (wi : wf item = true) (fi : frag item = true) :
+    wf (arrWithout vs off c ix item) = true ∧
+    den (arrWithout vs off c ix item) =
+      specWithout (arrMembers off (denOpts vs)) (vpair "@item" (.num ix) (den item)) := by
+  apply array_without_wf_den vs off c ix item hw
+  intro v hv
+  simp only [wf, Bool.and_eq_true] at hw
+  exact equal_iff_den_partial v item (wfOpts_mem vs v hw.1.2 hv) wi
+    (fragOpts_mem vs v (by simpa [frag] using hf) hv).2 fi
 
-set_option maxRecDepth 1000000 in
-/-- `NewTuple`/`TupleBuilder.Finish` (repair #20) on ≤ 2 attributes over the sugar names -/
-theorem new_tuple_wf_small : newTupleOk 2 = true := by decide
+/-- `NewTuple`/`TupleBuilder.Finish` (repair #20): unless Go panics (non-number under a sugar heading, pinned by the
+suite) the result is canonical and denotes the attributes given -/
+theorem new_tuple_wf (as : List (String × Rep)) (r : Rep) (hn : (namesOf as).Nodup) (hw : wfAttrs as = true)
+    (h : newTuple as = .ok r) : wf r = true ∧ den r = V.mkTup (denAttrs as) :=
+  new_tuple_wf_den as r hn hw h
 
-set_option maxRecDepth 1000000 in
-/-- `+>` (repaired) -/
-theorem merge_wf_small : mergeOk 1 = true := by decide
+/-- `+>` (repaired) on canonical tuples of any representation: canonical result, right operand wins -/
+theorem merge_wf (t u r : Rep) (ht : isTuple t = true) (hu : isTuple u = true)
+    (wt : wf t = true) (wu : wf u = true) (h : mergeLeftToRight t u = .ok r) :
+    wf r = true ∧ den r = V.mkTup (denAttrs (mergeAttrs (attrsOf t) (attrsOf u))) :=
+  merge_wf_den t u r ht hu wt wu h
+
+def set_builder_wf_full : Prop := ∀ n, setBuilderOk n = true
 
 set_option maxRecDepth 1000000 in
 /-- `NewSet` (bucket routing, asString/asArray/asBytes/NewDict, union of buckets) on ≤ 2 members -/
